@@ -74,6 +74,8 @@ inductive Obs
   | cbState (k : Kind) | cbCount (s f : Int) | cbRejected      -- one per notification (fan-out to listeners is sequential code)
   | admitted (o : Nat) (t1 : Int)                               -- ghost: CanRequest admitted as the trial from object o having read t1
   | transition (o : Nat) (k : Kind)                             -- ghost: successful CAS from o to a new object of kind k
+  | recorded (w : Nat) (stamp : Int) (succ : Bool)              -- ghost: a report was recorded in window w in a bucket with this timestamp
+  | rolled (w : Nat) (t : Int) (s f : Int)                      -- ghost: the roll of window w at tick t computed this count
 deriving Repr, DecidableEq
 
 def getD' {α} (l : List α) (i : Nat) (d : α) : α := (l[i]?).getD d
@@ -141,9 +143,9 @@ def step (cfg : Config) (_t : Tid) (g : CG) : L → Act → Option (CG × L × L
         -- instant bucket straight into the reservoir
         let g' := { g with buckets := g.buckets ++ [mkBucket t succ],
                            wins := setAt g.wins w { wn with res := wn.res ++ [g.buckets.length] } }
-        some (g', .idle, [.ret none])
+        some (g', .idle, [.recorded w t succ, .ret none])
       else if t < wrap64 (bk.ts + cfg.interval) then
-        some ({ g with buckets := setAt g.buckets b (bk.add succ) }, .idle, [.ret none])
+        some ({ g with buckets := setAt g.buckets b (bk.add succ) }, .idle, [.recorded w bk.ts succ, .ret none])
       else some (g, .w2 c o w t b, [])
   | .w2 c o w t b, .tau =>
       let wn := g.win w
@@ -155,10 +157,11 @@ def step (cfg : Config) (_t : Tid) (g : CG) : L → Act → Option (CG × L × L
         let res1 := wn.res ++ [b]
         let kept := trimIds g1 (wrap64 (t - cfg.window)) res1
         let e := (sumIdsS g1 kept, sumIdsF g1 kept)
-        some ({ g1 with wins := setAt g1.wins w { wn with cur := nb, res := kept } }, .w3 c o w e, [])
+        some ({ g1 with wins := setAt g1.wins w { wn with cur := nb, res := kept } }, .w3 c o w e,
+              [.rolled w t e.1 e.2, .recorded w t succ])
       else
         -- lost: archive the own fresh bucket as an instant bucket
-        some ({ g1 with wins := setAt g1.wins w { wn with res := wn.res ++ [nb] } }, .idle, [.ret none])
+        some ({ g1 with wins := setAt g1.wins w { wn with res := wn.res ++ [nb] } }, .idle, [.recorded w t succ, .ret none])
   | .w3 c o w e, .tau =>
       let wn := g.win w
       let (l, obs) := afterReport cfg c o (some e)
